@@ -29,9 +29,15 @@ def judge_constraints(cons, sol, scope=None, label=""):
     n = 0
     for e in cons:
         try:
+            if any(isinstance(env[nm], tuple) and env[nm][0] is None for nm in names_in(e) if nm in env):
+                raise TypeError("non-finite")
             v = ev(e, env)
         except (riddle.Unknown, KeyError) as ex:
             bad.append(("unjudged", riddle.show(e), "value not exposed: %s" % ex))
+            continue
+        except TypeError:
+            # an exposed value is infinite (a time point without a lower bound is reported at -inf): arithmetic on it is undefined, not judged
+            bad.append(("unjudged", riddle.show(e), "non-finite value exposed"))
             continue
         n += 1
         if v is True:
@@ -162,12 +168,48 @@ def cli_leg(part, case, variant, probe_exe, out, owner):
             part.violation("cli/declared-unsolvable", "the oRatio executable declares unsolvable a problem the same library solves when driven directly", wit)
 
 
-def cons_work(exes, start, n, owner):
+def verdict_of(out):
+    st = out.status
+    msg = out.read_error or out.solve_error or ""
+    if st == "solved":
+        return "solvable"
+    if st == "unsolvable" or "unsolvable" in msg or "inconsistent" in msg:
+        return "unsolvable"
+    return None
+
+
+def equivalence_leg(part, rnd, case, variant, exe, out, fam):
+    """C02, second half: an equivalent formulation (independent statements reordered, identifiers renamed, commutative arguments reordered, tautologies
+    added) must get the same verdict in the same configuration"""
+    v0 = verdict_of(out)
+    if v0 is None:
+        return
+    text2, what = rgen.equivalent_variant(rnd, case)
+    out2 = solverlib.run_probe(exe, [text2])
+    if out2.status == "timeout":
+        part.inconc("timeout (search budget, equivalent formulation)")
+        return
+    if out2.status == "crash":
+        part.inconc("abort (owned by C18): " + out2.crash.site())
+        return
+    v1 = verdict_of(out2)
+    part.count(fam + ": equivalent formulations compared (%s)" % what)
+    part.count(fam + ": equivalent formulations compared")
+    if v1 is None:
+        part.count(fam + ": equivalent formulation rejected with another error (owned by C16)")
+        return
+    if v0 != v1:
+        part.violation(fam + "/equivalent-formulations-get-different-verdicts", "the problem is %s, an equivalent formulation of it (%s) is %s" % (v0, what, v1),
+                       {"program": case["text"], "equivalent_program": text2, "transformation": what, "variant": variant, "verdicts": [v0, v1]})
+
+
+def cons_work(exes, start, n, owner, fam="cons"):
     part = common.Partial()
-    rnd = common.rng("CONS", start)
+    rnd = common.rng("CONS", start) if fam == "cons" else common.rng("CONS", fam, start)
+    gen = rgen.gen_cons if fam == "cons" else rgen.gen_tp
     names = sorted(exes)
     for i in range(n):
-        case = rgen.gen_cons(rnd, start + i)
+        case = gen(rnd, start + i)
         variant = names[(start + i) % len(names)]
         out = solverlib.run_probe(exes[variant], [case["text"]])
         fp = common.fingerprint(case["text"])
@@ -178,26 +220,28 @@ def cons_work(exes, start, n, owner):
         if st == "crash":
             part.inconc("abort (owned by C18): " + out.crash.site())
             continue
-        part.count("cons: programs (%s)" % variant)
-        part.count("cons: outcome " + st)
+        part.count(fam + ": programs (%s)" % variant)
+        part.count(fam + ": outcome " + st)
         if (start + i) % 3 == 0 and st in ("solved", "unsolvable"):
             cli_leg(part, case, variant, exes[variant], out, owner)
+        if owner == "C02" and (start + i) % 2 == 1:
+            equivalence_leg(part, rnd, case, variant, exes[variant], out, fam)
         if st == "solved":
             sol = solverlib.Solution(out.post)
             bad, njudged = judge_constraints(case["cons"], sol)
             part.case(fp, njudged > 0, {"program": case["text"], "variant": variant})
-            part.count("cons: constraints evaluated on solutions", njudged)
+            part.count(fam + ": constraints evaluated on solutions", njudged)
             for kind, txt, detail in bad:
                 if kind == "unjudged":
-                    part.count("cons: constraints not judged (value not exposed)")
+                    part.count(fam + ": constraints not judged (value not exposed)")
                     continue
                 if owner == "C01":
                     e = [c for c in case["cons"] if riddle.show(c) == txt][0]
                     if undecided_atom_inside(e, sol, out):
                         key = "solution-leaves-theory-atom-undecided"
-                        part.count("cons: failures attributed to undecided theory atoms")
+                        part.count(fam + ": failures attributed to undecided theory atoms")
                     else:
-                        key = "cons/constraint-%s/%s" % (kind, "+".join(sorted(ops_of(e)))[:60])
+                        key = fam + "/constraint-%s/%s" % (kind, "+".join(sorted(ops_of(e)))[:60])
                     part.violation(key, "solve() returned true but " + detail, {"program": case["text"], "variant": variant, "constraint": txt, "detail": detail})
                 else:
                     part.count("failures owned by C01")
@@ -207,7 +251,7 @@ def cons_work(exes, start, n, owner):
             is_unsolvable = st == "unsolvable" or "unsolvable" in msg or "inconsistent" in msg
             if not is_unsolvable:
                 # some other reported error on a valid program: acceptance is C16's
-                part.count("cons: rejected with another error (owned by C16)")
+                part.count(fam + ": rejected with another error (owned by C16)")
                 continue
             truth = None
             if case["planted"] is not None:
@@ -216,13 +260,13 @@ def cons_work(exes, start, n, owner):
             else:
                 truth = z3_sat(case)
                 src = "z3"
-                part.count("cons: z3 ground truth " + truth)
+                part.count(fam + ": z3 ground truth " + truth)
             if truth == "sat":
                 if owner == "C02":
                     allops = set()
                     for c in case["cons"]:
                         allops |= ops_of(c)
-                    part.violation("cons/declared-unsolvable/%s" % st, "the problem is declared unsolvable (%s) but it has a solution (%s)" % (msg or st, src),
+                    part.violation(fam + "/declared-unsolvable/%s" % st, "the problem is declared unsolvable (%s) but it has a solution (%s)" % (msg or st, src),
                                    {"program": case["text"], "variant": variant, "ground_truth": src, "operators": sorted(allops)})
                 else:
                     part.count("failures owned by C02")
@@ -232,18 +276,20 @@ def cons_work(exes, start, n, owner):
 
 
 def run(tier):
-    res = common.Result(PID, tier, "constraint-network programs (1-5 real/int variables, 0-3 booleans, 2-8 random constraints over + - * / relations & | ^ -> ! ==, 80% built around "
+    res = common.Result(PID, tier, "constraint-network programs (time points of type tp with difference constraints in every accepted shape; 1-5 real/int variables, 0-3 booleans, 2-8 random constraints over + - * / relations & | ^ -> ! ==, 80% built around "
                         "a planted assignment) run through read()+solve() in the configuration matrix (h_max/h_add x CHECK_INCONSISTENCIES on/off x Debug/Release); "
                         "every asserted constraint is evaluated with exact (rational, eps) arithmetic on the values the solution JSON exposes and must be True; every third program also goes through the oRatio executable of the same build (exit code, solution file, values in it); "
                         "further families (objects, rules, timelines) are added by the same oracle; non-trivial = solve() returned true and at least one "
                         "constraint was evaluated")
     res.assumptions = ["values are read from core::to_json (the JSON a user gets); int variables are treated as reals (the network does not enforce integrality)"]
     exes = probes(tier)
-    total = 800 if tier == "quick" else 16000
+    total = 2400 if tier == "quick" else 16000
     per = 20 if tier == "quick" else 50
     common.pmap(cons_work, [(exes, s, per, PID) for s in range(0, total, per)], res)
+    common.pmap(cons_work, [(exes, s, per, PID, "tp") for s in range(0, total // 3, per)], res)
     from checks import plan
     plan.run_families(res, exes, tier, PID)
+    res.gate("time-point (difference logic) solutions evaluated", res.counters.get("tp: constraints evaluated on solutions", 0) > 200)
     res.gate("solutions evaluated", res.counters.get("cons: constraints evaluated on solutions", 0) > 500)
     res.gate("solution files written by the oRatio executable evaluated", res.counters.get("cli: constraints evaluated on solution files", 0) > 100)
     for v in exes:
